@@ -94,6 +94,26 @@ def walk(ctx, report, facts, config, rule="C20.WALK"):
                 if not (len(gets) == 1 and Q.strip(ev, gets[0][3][1]) == inner.elem and _has_leaf(gets[0][3][0], ("param", 3))):
                     okn = False
         report.ob(rule, "one-line-per-id", cnts == set([1]), "write_fmt calls per member: %s (expected exactly 1)" % sorted(cnts), site=Q.site_of(ev, inner) or b.loc(), config=config)
+        # the map the names are looked up in holds every entry of the `map` argument, turned round: one collect over a
+        # plain front-to-back traversal of it (no skip / take / filter on the way), each entry yielding (its value, its key)
+        inv = [L for L in loops if L.kind == "model:collect" and L.source is not None and Q.strip(ev, L.source) == ("param", 3)]
+        oki = len(set(L.id for L in inv)) == 1
+        for L in inv:
+            if [n_ for n_, _ in L.stages if n_ != "map"] or _term_class(ev, L.source) != "full":
+                oki = False
+            for it in L.iters:
+                if it.end == "done":
+                    continue
+                ys = [y for y in it.path.events if y[0] == "yield"]
+                if it.end != "continue" or len(ys) != 1:
+                    oki = False
+                    continue
+                y = ys[0][1] if len(ys[0]) == 2 else ys[0][2]
+                comp = y[3] if isinstance(y, tuple) and y and y[0] == "agg" and len(y[3]) == 2 else None
+                if not (comp and Q.strip(ev, comp[0]) == ("field", L.elem, "1", "tuple") and _has_leaf(comp[1], ("field", L.elem, "0", "tuple"))):
+                    oki = False
+        report.ob(rule, "name-map-inverted-in-full", oki, "the lookup map is collected from a full traversal of the `map` argument, (value, key) per entry" if oki else
+                  "the map the names are looked up in is not every entry of the `map` argument turned round: a named system would print as unnamed", site=b.loc(), config=config)
         report.ob(rule, "name-lookup", okn and n_ways >= 2, "each id is looked up in the map inverted from the `map` argument" if okn else "the printed name is not looked up by the member's own id in the name map", site=b.loc(), config=config)
     # the result is Ok only after the whole walk
     bad = [e for e in ends if e.kind == "return" and e.ret[0] == "agg" and e.ret[2] == "std::result::Result::Ok" and
